@@ -63,5 +63,28 @@ func checkDefs() map[string]CheckDef {
 		BoundsText: "channel with 2 participants, app in {NoApp, payment, MockApp(OpValid)}; current state: 1..2 assets, 0..1 sub-allocations, unbounded non-negative amounts, symbolic version/final flag/asset ids; candidate: 13 shape variants relative to the current state (same; one asset more/less; rows != assets; participant columns 0, N-1, N+1; ragged last row shorter/longer; one sub-allocation more/less; sub-allocation with one balance too many), every leaf symbolic: all 32 ID bytes, version, final flag, app definition (same kind) or another app kind, asset ids, amounts unbounded integers of either sign, actor any uint16; limits at exactly 1024/1025 assets, participants and sub-allocations",
 		Outside:    []string{"ActionMachine", "more than 2 participants / 2 assets in the current state", "apps other than the three named"},
 	})
+	machAssume := append(append(append([]string{}, commonAssumptions...), cryptoAssumptions...),
+		"representation invariant I of the machine (DESIGN.md §3 C01): current transaction absent exactly in the two initial phases; if present, all its signatures verify or all slots are nil; in signing phases a staged state with N slots exists; every filled staging slot verifies for the staged state. The C01 step obligation shows I is inductive over the complete operation alphabet, the base obligation shows it for fresh machines, and the BMC obligation shows it on states reached through the real API",
+		"signature indices below the participant count (larger ones are documented to panic); the unchecked ForceUpdate and Update/CheckUpdate are applied only to machines with a current state; SetProgressed/SetProgressing carry a non-nil state")
+	add(CheckDef{
+		ID: "C09",
+		Obligations: []Obligation{
+			{Pkg: "internal/verifh/c09", Harness: "VerifC09Step", Quick: map[string]int{"sigKinds": 5, "symPhase": 1}, Thor: map[string]int{"sigKinds": 7, "symPhase": 0}, TV: 30},
+		},
+		Assumptions: append(machAssume, "reference automaton: DESIGN.md Appendix A.2; 'signature valid' in the reference is the backend's Verify on (participant address, staged state, signature), whose meaning is established by C15"),
+		BoundsText:  "2 participants, own index 0 and 1; pre-state: any of the 12 phases (symbolic in quick, enumerated in thorough), current transaction {absent, fully signed, adopted}, staging {absent, present with any subset of valid signature slots}; states: 1 asset, amounts of exactly 1 byte, symbolic version/final flag/asset id; one operation of the complete alphabet (17 operations) with symbolic arguments: candidate state with symbolic ID/version/final/amounts, any uint16 actor, signature index 0..1, signature kind in {valid, replay over another state, by the other participant, by a stranger, 64 zero bytes} (+ {wrong length, nil} in thorough)",
+		Outside:     []string{"ActionMachine", "more than 2 participants", "sequences of operations (covered as one inductive step from an arbitrary invariant-satisfying state, and by C01's BMC obligation)"},
+	})
+	add(CheckDef{
+		ID: "C01",
+		Obligations: []Obligation{
+			{Pkg: "internal/verifh/c01", Harness: "VerifC01Base", TV: 5},
+			{Pkg: "internal/verifh/c01", Harness: "VerifC01Step", Quick: map[string]int{"sigKinds": 5, "symPhase": 1}, Thor: map[string]int{"sigKinds": 7, "symPhase": 0}, TV: 30},
+			{Pkg: "internal/verifh/c01", Harness: "VerifC01BMC", Quick: map[string]int{"sigKinds": 3, "k": 1, "symPhase": 0}, Thor: map[string]int{"sigKinds": 3, "k": 2}, TV: 20},
+		},
+		Assumptions: machAssume,
+		BoundsText:  "as C09 for the inductive step (one arbitrary operation from an arbitrary invariant-satisfying machine: unbounded history); BMC: 9 milestone states reached through the real API (fresh, initialised, own-signed, fully signed init, funding, acting, update staged, peer-signed, fully signed update) followed by all sequences of k arbitrary operations (k=1 quick, 2 thorough), re-verifying the current transaction with channel.Verify after every step",
+		Outside:     []string{"ActionMachine", "more than 2 participants (3 only in the base obligation)", "participants whose address map is empty"},
+	})
 	return defs
 }
